@@ -42,24 +42,85 @@ def acyclic2(nodes):
 
 CFG = dbside.Cfg()
 
+# GFF3 percent-encoding of attribute values: the characters with a meaning in column 9 (and '%' itself, and control
+# characters) MUST be written %XX in the file; any other character MAY be.  The parser decodes every value once: from
+# then on the decoded text is the id.
+GFF3_RESERVED = "%;=&,"
+
+
+def q3(s, form=None):
+    """the text `s` as it is written in a GFF3 attribute value.  form None / "min": only what must be encoded;
+    "full": every character that is not a letter or digit; "lower": like "min" with lower-case hex digits"""
+    out = []
+    for ch in s:
+        if ch in GFF3_RESERVED or ord(ch) < 32 or ord(ch) == 127 or (form == "full" and not ch.isalnum()):
+            out.append(("%%%02x" if form == "lower" else "%%%02X") % ord(ch))
+        else:
+            out.append(ch)
+    return "".join(out)
+
+
+# pieces of STORED ids: literal percent signs followed by two hex digits (an id that an upstream tool percent-encoded
+# once and that is kept verbatim: written %25XX in the file), percent signs not followed by hex digits, and the
+# characters GFF3 reserves (written %3B, %2C, %3D, %26 in the file), space, colon
+ID_TOKENS = ["%3A", "%3B", "%2C", "%25", "%41", "%7e", "%2541", "%3D", "%26", "%20", "%09", "%", "%%", "%G1", "%4",
+             ";", ",", "=", "&", " ", " x ", ":", ";,=&", "%3A%3B"]
+
+
+def special_ids(r, nodes):
+    """the same graph with ids (stored features and, sometimes, the dangling Parent values) that contain reserved
+    characters / literal percent sequences; every node gets an "idform" (how its line writes the values).  Sometimes an
+    unrelated root feature is added whose id is what decoding such an id ONCE MORE would give."""
+    from urllib.parse import unquote
+    names = {}
+    for x in nodes:
+        for i in [x["id"]] + list(x["parents"]):
+            if i in names:
+                continue
+            if (i.startswith("ghost") and r.random() < 0.6) or r.random() < 0.25:
+                names[i] = i
+                continue
+            tok = r.choice(ID_TOKENS)
+            new = r.choice([i + tok, tok + i, i[:1] + tok + i[1:]])
+            if new != new.strip():
+                new = i[:1] + tok + i[1:]
+            if r.random() < 0.2:
+                new += r.choice(ID_TOKENS).strip() or "%"
+            names[i] = new
+    if len(set(names.values())) != len(names):
+        return nodes
+    out = [dict(x, id=names[x["id"]], parents=[names[p] for p in x["parents"]],
+                idform=r.choice([None, None, "full", "lower"])) for x in nodes]
+    taken = set(names.values())
+    twins = [unquote(v) for v in names.values() if unquote(v) != v and unquote(v) == unquote(v).strip()
+             and "\t" not in unquote(v) and unquote(v) not in taken]
+    if twins and r.random() < 0.35:
+        t = r.choice(sorted(twins))
+        out.insert(r.randrange(len(out) + 1),
+                   {"id": t, "level": 0, "parents": [], "ftype": "gene", "seqid": "chr2", "start": 7000, "end": 7100,
+                    "strand": "+", "idform": None})
+    return out
+
 
 def styled_lines(nodes):
     """the lines of a graph whose nodes may carry a notation: "dbx" = None | "first" | "last" (a Dbxref attribute with
     two values written with REPEATED KEYS, Dbxref=a;Dbxref=b, before or after the Parent attribute - enough of them in
     the inspection window make 'repeated keys' the file's dialect) and "pform" = "comma" | "repeated" (Parent=a,b or
     Parent=a;Parent=b).  Both notations are legal GFF3 and may be mixed in one file; nodes without these keys are
-    written as gen_db.graph_lines writes them."""
+    written as gen_db.graph_lines writes them.  "id" and "parents" are the texts the parser hands out (the stored id):
+    the line holds them percent-encoded (q3, "idform")."""
     out = []
     for i, x in enumerate(nodes):
-        parts = ["ID=%s" % x["id"]]
-        dbx = ["Dbxref=FB:%s" % x["id"], "Dbxref=GI:%s" % x["id"]]
+        form = x.get("idform")
+        parts = ["ID=%s" % q3(x["id"], form)]
+        dbx = ["Dbxref=FB:%s" % q3(x["id"], form), "Dbxref=GI:%s" % q3(x["id"], form)]
         if x.get("dbx") == "first":
             parts += dbx
         if x["parents"]:
             if x.get("pform") == "repeated":
-                parts += ["Parent=%s" % p for p in x["parents"]]
+                parts += ["Parent=%s" % q3(p, form) for p in x["parents"]]
             else:
-                parts.append("Parent=%s" % ",".join(x["parents"]))
+                parts.append("Parent=%s" % ",".join(q3(p, form) for p in x["parents"]))
         if x.get("dbx") == "last":
             parts += dbx
         out.append("\t".join([x["seqid"], "src", x["ftype"], str(x["start"]), str(x["end"]), ".", x["strand"], ".",
@@ -319,12 +380,17 @@ def run(ctx):
     r = ctx.rng("c02")
     rs = ctx.rng("c02", "notation")
     rd = ctx.rng("c02", "delete_readd")
+    ri = ctx.rng("c02", "ids with reserved characters")
     res.rule = ("GFF3 DAGs with unique IDs: depth <= 4, 0-3 Parent values per feature (shared children, repeated and "
                 "dangling Parent values), lines in every permutation (<= 6 lines) or random shuffles; children/parents at "
                 "level 1, 2, None for every stored id and two absent ids; featuretype/order_by/reverse arguments; "
                 "iter_by_parent_childs; 40% of the graphs in mixed notation (repeated-key Dbxref on most lines, Parent "
                 "lists in the comma form or as repeated keys); history import -> delete a leaf -> update() filing it under "
-                "other Parent values. non-trivial = distinct graph with >= 1 level-2 relation")
+                "other Parent values; 35% of the graphs with ids (and Parent values) holding literal percent sequences "
+                "('gene%3A7', written ID=gene%253A7), bare '%', and the reserved characters ; , = & (written %3B %2C %3D "
+                "%26), space, colon - minimally, fully or lower-case percent-encoded in the file - now and then next to an "
+                "unrelated feature whose id is the once-more-decoded text. "
+                "non-trivial = distinct graph with >= 1 level-2 relation")
     cmds, exp, tags = [], [], []
     ngraphs = 150 if not ctx.thorough else 900      # 900 graphs (was 1000): the thorough tier sits at its ~10 min budget
     cfg = CFG
@@ -332,6 +398,12 @@ def run(ctx):
         nodes = gen_db.rand_gff3_graph(r, n=r.choice([1, 2, 3, 4, 5, 6, 6, 8, 11, 15]))
         if not acyclic2(nodes):
             continue
+        if ri.random() < 0.35:
+            nodes = special_ids(ri, nodes)
+            if any("idform" in x for x in nodes):
+                res.count("ids_with_reserved_characters")
+                if any(__import__("re").search("%[0-9A-Fa-f]{2}", x["id"]) for x in nodes):
+                    res.count("ids_with_literal_percent_hex")
         stored, lvl1, lvl2 = graph_oracle(nodes)
         mixed = rs.random() < 0.4
         if mixed:
@@ -419,8 +491,8 @@ def run(ctx):
                 m = "SET " + enc_list(sorted(dec(x) for x in m[3:].split(",") if x != "_")) if m.startswith("ok ") else m
             if m != e:
                 res.corr_disagreements.append((comp, inp[:800], m[:800], e[:800]))
-    res.assumptions = ["IDs are unique, free of tab and of leading/trailing whitespace (the importer passes ids through a "
-                       "tab-separated temp file)", "no feature is its own ancestor within two steps"]
+    res.assumptions = ["IDs are unique, free of tab / line breaks and of leading/trailing whitespace (the importer passes ids "
+                       "through a tab-separated temp file); reserved characters are written percent-encoded in the file", "no feature is its own ancestor within two steps"]
     common.shrink_first_failure(res, lambda case: judge(ctx, case))
     return res
 
